@@ -346,6 +346,8 @@ func runC02(r *Report) {
 	// ---- R5
 	c02R5(r)
 	c02FuseCount(r, "R5")
+	// the reader's 64-bit offset reaches the store unclipped (shared with C01.R7)
+	offsetsNotNarrowed(r, "R2")
 }
 
 // c02R5: FUSE reads are serialised (shared with C01: a reply for offset X must carry the bytes of offset X).
